@@ -10,7 +10,9 @@ def record(rng, n, shape=None, amp=None):
     if shape is None:
         shape = SHAPES[rng.integers(len(SHAPES))]
     if amp is None:
-        amp = 10.0 ** rng.uniform(-6, 6) if rng.random() < 0.3 else 10.0 ** rng.uniform(-2, 1)
+        r = rng.random()
+        # ordinary magnitudes mostly; every so often many decades away (ambient noise ~1e-9 ... raw counts ~1e8)
+        amp = 10.0 ** rng.uniform(-11, -7) if r < 0.1 else (10.0 ** rng.uniform(-6, 8) if r < 0.3 else 10.0 ** rng.uniform(-2, 1))
     t = np.arange(n)
     if shape == "noise":
         x = rng.standard_normal(n)
